@@ -150,6 +150,48 @@ def nodeWire (n : Option NodeInfo) : Wire :=
   | none => { auth := none, db := 0 }
   | some r => { auth := r.password.map (fun p => (r.username, p)), db := r.db }
 
+/-! ### whole `Config` values read from a document -/
+
+inductive Flavour | redis | cluster | sentinel
+deriving Repr, DecidableEq, Inhabited
+
+/-- which top-level keys a document for a whole `Config` carries (values are opaque except
+where a default is documented) -/
+structure WholeDoc where
+  /-- `url` / `urls` -/
+  urls : Bool := false
+  /-- `connection` / `connections` -/
+  conns : Bool := false
+  /-- `pool.max_size` of a `pool` section -/
+  pool : Option Nat := none
+  /-- cluster: `read_from_replicas`; sentinel: `server_type` is `replica` -/
+  flag : Option Bool := none
+  /-- sentinel: `master_name` -/
+  name : Option String := none
+deriving Repr, DecidableEq, Inhabited
+
+/-- the `Config` a document deserialises to -/
+structure Whole where
+  urls : Bool
+  conns : Bool
+  pool : Option Nat
+  flag : Bool
+  name : String
+deriving Repr, DecidableEq, Inhabited
+
+/-- documented defaults of omitted keys: no url(s), no connection(s), no pool section,
+`read_from_replicas = false`, `server_type = master`, `master_name = "mymaster"` -/
+def decodeWhole (f : Flavour) (d : WholeDoc) : Whole :=
+  { urls := d.urls, conns := d.conns, pool := d.pool,
+    flag := d.flag.getD false,
+    name := match f with
+      | .sentinel => d.name.getD "mymaster"
+      | _ => "" }
+
+/-- what `builder()` says about the deserialised config (the listed servers are fine) -/
+def Whole.decision (w : Whole) : Decision Unit Unit :=
+  decide (if w.urls then some () else none) (if w.conns then some () else none)
+
 /-! ### PoolConfig and its serialised form -/
 
 inductive QueueMode | fifo | lifo
